@@ -34,7 +34,7 @@ def _relabel(ctx, check, old: str, new: str) -> None:
 
 
 def run(ctx) -> None:
-    ctx.rule("C14.tasks", "the set of deletion tasks does not depend on the order of the requested items (shared with C06)", floor=3)
+    ctx.rule("C14.tasks", "the set of deletion tasks does not depend on the order of the requested items (shared with C06)", floor=3, hard=0)
     ctx.rule("C14.count", "OptGP: sample count bookkeeping is independent of the process count (shared with C16)", floor=1)
     ctx.rule("C14.keyed", "T5: unordered pool primitive => keyed / order-free consumption", floor=3)
     ctx.rule("C14.residue", "T1/T2: task functions leave no residue on the worker model", floor=6)
@@ -58,8 +58,16 @@ def run(ctx) -> None:
             f.rule = "C14.residue"
     # per-item helpers that run on the worker's model: no effect may outlive the item (C13's scope analysis on them)
     check_item_helpers(ctx, "C14.residue", (("cobra.flux_analysis.loopless", "loopless_fva_iter"), ("cobra.flux_analysis.deletion", "_reaction_deletion"), ("cobra.flux_analysis.deletion", "_gene_deletion")))
-    _relabel(ctx, c06.check_tasks, "C06.tasks", "C14.tasks")
-    _relabel(ctx, c16.check_count, "C16.count", "C14.count")
+    # the deletion functions evaluated end to end, serially and through the pool stand-in with 2 and 3 processes (shared
+    # with C06): the rows must be the same set whatever the process count; the reading of the task set only explains
+    from . import delform
+
+    ctx.rule("C06.formulation", "oracle evaluation: one row per combination whatever the process count (shared with C06)", floor=6)
+    n0 = len(ctx.findings)
+    ctx.guard(delform.check_deletions, ctx, "C06.formulation")
+    deletions_failed = len(ctx.findings) > n0 or bool(ctx.deferred)
+    _relabel(ctx, lambda c: c.explain(deletions_failed, c06.check_tasks, c), "C06.tasks", "C14.tasks")
+    _relabel(ctx, c16.check_count_both, "C16.count", "C14.count")
     fa.check_chunk(ctx, "C14.chunk", [fa.FVA, ("cobra.flux_analysis.deletion", "_multi_deletion")])
     fa.check_seed(ctx, "C14.seed")
     fa.check_shared_state(ctx, "C14.shared")
